@@ -17,9 +17,10 @@ type lin struct {
 	toks   []string
 	expect []string
 	scopes []map[string]bool
+	bases  []int
 }
 
-func (l *lin) off(p gotoken.Pos) int { return int(p) - l.g.tf.Base() }
+func (l *lin) off(p gotoken.Pos) int { return globalOff(l.bases, p) }
 
 func (l *lin) open()  { l.toks = append(l.toks, "("); l.scopes = append(l.scopes, map[string]bool{}) }
 func (l *lin) close() { l.toks = append(l.toks, ")"); l.scopes = l.scopes[:len(l.scopes)-1] }
@@ -327,63 +328,67 @@ func (l *lin) stmt(s goast.Stmt) {
 }
 
 func linearise(g *goChecked) (pkgEnv, toks, expect string) {
-	l := &lin{g: g, scopes: []map[string]bool{{}}}
+	l := &lin{g: g, scopes: []map[string]bool{{}}, bases: g.bases()}
 	var env []string
-	for _, d := range g.file.Decls {
-		switch v := d.(type) {
-		case *goast.GenDecl:
-			for _, sp := range v.Specs {
-				switch s := sp.(type) {
-				case *goast.ImportSpec:
-					name := strings.Trim(s.Path.Value, `"`)
-					if i := strings.LastIndexByte(name, '/'); i >= 0 {
-						name = name[i+1:]
-					}
-					pos := s.Path.Pos()
-					if s.Name != nil {
-						name, pos = s.Name.Name, s.Name.Pos()
-					}
-					env = append(env, fmt.Sprintf("%s@%d", name, l.off(pos)))
-				case *goast.ValueSpec:
-					for _, n := range s.Names {
-						if n.Name != "_" {
-							env = append(env, fmt.Sprintf("%s@%d", n.Name, l.off(n.Pos())))
+	for _, gf := range g.files {
+		for _, d := range gf.Decls {
+			switch v := d.(type) {
+			case *goast.GenDecl:
+				for _, sp := range v.Specs {
+					switch s := sp.(type) {
+					case *goast.ImportSpec:
+						name := strings.Trim(s.Path.Value, `"`)
+						if i := strings.LastIndexByte(name, '/'); i >= 0 {
+							name = name[i+1:]
 						}
+						pos := s.Path.Pos()
+						if s.Name != nil {
+							name, pos = s.Name.Name, s.Name.Pos()
+						}
+						env = append(env, fmt.Sprintf("%s@%d", name, l.off(pos)))
+					case *goast.ValueSpec:
+						for _, n := range s.Names {
+							if n.Name != "_" {
+								env = append(env, fmt.Sprintf("%s@%d", n.Name, l.off(n.Pos())))
+							}
+						}
+					case *goast.TypeSpec:
+						env = append(env, fmt.Sprintf("%s@%d", s.Name.Name, l.off(s.Name.Pos())))
 					}
-				case *goast.TypeSpec:
-					env = append(env, fmt.Sprintf("%s@%d", s.Name.Name, l.off(s.Name.Pos())))
 				}
-			}
-		case *goast.FuncDecl:
-			if v.Recv == nil && v.Name.Name != "init" && v.Name.Name != "_" {
-				env = append(env, fmt.Sprintf("%s@%d", v.Name.Name, l.off(v.Name.Pos())))
+			case *goast.FuncDecl:
+				if v.Recv == nil && v.Name.Name != "init" && v.Name.Name != "_" {
+					env = append(env, fmt.Sprintf("%s@%d", v.Name.Name, l.off(v.Name.Pos())))
+				}
 			}
 		}
 	}
-	for _, d := range g.file.Decls {
-		switch v := d.(type) {
-		case *goast.GenDecl:
-			if v.Tok == gotoken.IMPORT {
-				continue
-			}
-			for _, sp := range v.Specs {
-				switch s := sp.(type) {
-				case *goast.ValueSpec:
-					l.expr(s.Type)
-					for _, x := range s.Values {
-						l.expr(x)
-					}
-				case *goast.TypeSpec:
-					l.expr(s.Type)
+	for _, gf := range g.files {
+		for _, d := range gf.Decls {
+			switch v := d.(type) {
+			case *goast.GenDecl:
+				if v.Tok == gotoken.IMPORT {
+					continue
 				}
+				for _, sp := range v.Specs {
+					switch s := sp.(type) {
+					case *goast.ValueSpec:
+						l.expr(s.Type)
+						for _, x := range s.Values {
+							l.expr(x)
+						}
+					case *goast.TypeSpec:
+						l.expr(s.Type)
+					}
+				}
+			case *goast.FuncDecl:
+				l.open()
+				l.signature(v.Type, v.Recv)
+				if v.Body != nil {
+					l.stmts(v.Body.List)
+				}
+				l.close()
 			}
-		case *goast.FuncDecl:
-			l.open()
-			l.signature(v.Type, v.Recv)
-			if v.Body != nil {
-				l.stmts(v.Body.List)
-			}
-			l.close()
 		}
 	}
 	return strings.Join(env, ","), strings.Join(l.toks, " "), strings.Join(l.expect, ",")
